@@ -3,6 +3,9 @@ package main
 // C06: coloured console mode - faithful layout and no colour bleeding out of a record.
 
 import (
+	"bytes"
+	"encoding/base64"
+	"encoding/gob"
 	"fmt"
 	"strconv"
 	"strings"
@@ -11,7 +14,29 @@ import (
 	"github.com/hedzr/logg/slog"
 )
 
-func init() { drivers["C06"] = runC06; replayers["C06"] = replayEnc("C06") }
+func init() {
+	drivers["C06"] = runC06
+	replayers["C06"] = func(r *Run, file string) {
+		var probe struct {
+			Testing string `json:"testing_bytes"`
+			Exact   string `json:"exact_gob_base64"`
+		}
+		loadReplay(file, &probe)
+		if probe.Exact != "" { // a case of the testing-mode dump check
+			var rec EncRec
+			raw, _ := base64.StdEncoding.DecodeString(probe.Exact)
+			must(gob.NewDecoder(bytes.NewReader(raw)).Decode(&rec))
+			snap := slog.VerifSnapshot()
+			encSetup(snap)
+			c06Testing(r, []EncRec{rec})
+			r.Coq("Require Import Verif.Model.Base Verif.Model.Mode Verif.Model.Attrs Verif.Corr.Enc Verif.Corr.C06.", "Enc.ecase", "(ok isp)")
+			r.Prelude(isprintPrelude(map[rune]bool{}))
+			finishReplay(r)
+			return
+		}
+		replayEnc("C06")(r, file)
+	}
+}
 
 // sgrScan walks the payload: returns the text with SGR sequences removed and a
 // hygiene verdict ("" = every colour switched on is off again at each LF and at the end)
@@ -361,7 +386,7 @@ func c06Corpus() []EncRec {
 }
 
 func runC06(r *Run) {
-	r.Rule = "corpus (shared encoder corpus + markup with CR / character references / leading blanks + control bytes inside every text-carrying value kind) + random records in colour mode: all severities incl. registered and unregistered, tag widths 1..5, minimal widths 16/36/50, single/multi-line messages with and without trailing newline, all value kinds incl. errors and groups; byte-exact comparison with the model, and on every record in the domain of the theorems their conclusions are evaluated on the OBSERVED bytes (hygienic, strip_sgr = layout_of); direct oracle = SGR state simulator (all colours off at every LF and at the end, no foreign escape), a differential test that the raw control bytes of the payload do not depend on the control bytes inside attribute values, and the layout of the statement parsed from the text with SGR removed (layout only for messages without <,>,& and control characters other than LF); non-trivial = a byte needing escape, a group or a multi-line message; distinct by record"
+	r.Rule = "corpus (shared encoder corpus + markup with CR / character references / leading blanks + control bytes inside every text-carrying value kind) + random records in colour mode: all severities incl. registered and unregistered, tag widths 1..5, minimal widths 16/36/50, single/multi-line messages with and without trailing newline, all value kinds incl. errors and groups; byte-exact comparison with the model, and on every record in the domain of the theorems their conclusions are evaluated on the OBSERVED bytes (hygienic, strip_sgr = layout_of); direct oracle = SGR state simulator (all colours off at every LF and at the end, no foreign escape), a differential test that the raw control bytes of the payload do not depend on the control bytes inside attribute values, and the layout of the statement parsed from the text with SGR removed (layout only for messages without <,>,& and control characters other than LF); non-trivial = a byte needing escape, a group or a multi-line message; distinct by record; AND, in a go test -c binary of the harness (is.InTesting() true), the records that carry an error value (corpus of plain / multi-line / escape-carrying / stack-carrying errors + those of the random stream, colour and logfmt): one Write ending in LF, the production record is a prefix, all colours off at the end, no foreign escape, the error text contributes no raw control bytes (differential)"
 	// note (outside the quantifier: widths 1..5): SetLevelOutputWidth(0) is accepted, then every coloured record panics
 	func() {
 		snap := slog.VerifSnapshot()
@@ -383,7 +408,16 @@ func runC06(r *Run) {
 	r.ShardSize = 150
 	runeSet := map[rune]bool{}
 	nHyg, nLay := 0, 0
+	var withErr []EncRec // records with an error value: formatted again under go test (the error dump)
 	one := func(rec EncRec, kind string) {
+		if hasErrorAttr(rec.Attrs) && len(withErr) < r.N(150, 2500) {
+			withErr = append(withErr, rec)
+			if len(withErr)%2 == 0 { // the dump follows logfmt records too
+				lf := rec
+				lf.Cfg.Mode = "logfmt"
+				withErr = append(withErr, lf)
+			}
+		}
 		encOne(r, "C06", rec, oracleColor, kind, runeSet)
 		if !strings.Contains(rec.Msg, "\x1b") {
 			nHyg++
@@ -405,6 +439,7 @@ func runC06(r *Run) {
 		}
 		one(genEncRec(r.R, "color", pp), "random")
 	}
+	c06Testing(r, append(c06TestingCorpus(), withErr...))
 	r.Extra["records_without_escape_in_message"] = nHyg
 	r.Extra["records_in_layout_domain"] = nLay
 	r.Coq("Require Import Verif.Model.Base Verif.Model.Mode Verif.Model.Attrs Verif.Corr.Enc Verif.Corr.C06.", "Enc.ecase", "(ok isp)")
